@@ -753,6 +753,16 @@ class Resolver:
                     if prop in d:
                         return [d[prop]], "resolved"
                 return [], "unresolved"
+            # ClassName.prop.fset(self, v): the setter found from that class upwards
+            if fn.attr in ("fset", "fget") and isinstance(fn.value, ast.Attribute) and isinstance(fn.value.value, ast.Name):
+                cands = [k for k in self.repo.classes.values() if k.name == fn.value.value.id]
+                if len(cands) == 1:
+                    prop = fn.value.attr
+                    for k in self.repo.mro(cands[0]):
+                        d = k.setters if fn.attr == "fset" else k.getters
+                        if prop in d:
+                            return [d[prop]], "resolved"
+                    return [], "unresolved"
             full = norm(fn)
             if full.split(".")[0] in ("np", "numpy", "os", "re", "sys", "warnings", "argparse", "scipy"):
                 return [], "external"
